@@ -32,12 +32,16 @@ VALUES = ["one", "two", "", "a b", "$W", "x-y", "3", "${V}", "val"]
 CMDS_ABS = ["@CHILD@", "$CHILD", "${CHILD}", "$CHILDDIR/argvchild", "${CHILDDIR}/argvchild"]
 # the command word as a history dimension: a directory, the program name or the whole path in a variable,
 # a bare name resolved through PATH.  @D1@/tool, @D2@/tool, @D2@/other are copies of the child; @D0@ is empty.
-CMDS = CMDS_ABS + ["$TOOLDIR/tool", "${TOOLDIR}/$TOOL", "$WHOLE", "tool", "$TOOL", "$TOOLDIR/tool", "tool", "$TOOL"]
+# spellings relative to the current directory (the harness process runs in @D1@) and with . / .. components: what they name
+# is decided by the kernel at the call, never by a lexical clean-up of the word
+CMDS_REL = ["./tool", "././tool", "../d1/../d2/tool", "$TOOLDIR/../d2/tool", "$TOOLDIR/./tool", "../d2/other", "./$TOOL"]
+CMDS = CMDS_ABS + ["$TOOLDIR/tool", "${TOOLDIR}/$TOOL", "$WHOLE", "tool", "$TOOL", "$TOOLDIR/tool", "tool", "$TOOL"] + CMDS_REL
 CMD_VARS = {"TOOLDIR": ["@D1@", "@D2@", "@D1@", "@D2@", "@D2@", "@D0@"],
             "TOOL": ["tool", "tool", "tool", "other", "nosuch"],
             "WHOLE": ["@D1@/tool", "@D2@/tool", "@D2@/other", "@D1@/tool", "@D0@/tool"],
             "PATH": ["@D1@:@D2@", "@D2@:@D1@", "@D1@", "@D2@", "@D0@:@D2@", "@D1@:@D0@", "@D0@"]}
-CMDS_TOOL = ["$TOOLDIR/tool", "${TOOLDIR}/$TOOL", "$WHOLE", "tool", "tool", "$TOOL"]
+CMDS_TOOL = ["$TOOLDIR/tool", "${TOOLDIR}/$TOOL", "$WHOLE", "tool", "tool", "$TOOL"] + CMDS_REL
+BIG = 500                        # calls with at least this many arguments are compared by count + digest in the Coq case
 FS_EPOCH = "VERIF_FS_EPOCH"      # bumped by the harness with every file-system operation
 TOOLFILES = ["@D1@/tool", "@D2@/tool"]      # the programs that fs operations remove / restore / chmod
 WORDS = ["a", "-n", "x y", "", "lit", "b", "--flag=1", "$V", "${V}", "${V}x", "$V$W", "pre$V", "$V/$W", "$W", "$X",
@@ -154,7 +158,10 @@ def gen_cmd_history(rng):
     ops = [{"op": "mk", "kind": kind, "cmd": cmd, "baked": baked}]
     fs = {f: {"present": True, "exec": True} for f in TOOLFILES}
     relevant = {"$TOOLDIR/tool": ["TOOLDIR"], "${TOOLDIR}/$TOOL": ["TOOLDIR", "TOOL"], "$WHOLE": ["WHOLE"],
-                "tool": ["PATH"], "$TOOL": ["PATH", "PATH", "TOOL"]}[cmd]
+                "tool": ["PATH"], "$TOOL": ["PATH", "PATH", "TOOL"],
+                # for the relative spellings PATH is a control: it must NOT matter
+                "./tool": ["PATH"], "././tool": ["PATH"], "../d1/../d2/tool": ["PATH"], "../d2/other": ["PATH"],
+                "$TOOLDIR/../d2/tool": ["TOOLDIR", "PATH"], "$TOOLDIR/./tool": ["TOOLDIR", "PATH"], "./$TOOL": ["TOOL", "PATH"]}[cmd]
     for _ in range(rng.choice([2, 3, 3, 4, 5])):
         extra = dict(NILS) if rng.random() < 0.4 else gen_slice(rng, arrays, nonempty=True)
         ops.append({"op": "call", "c": 0, "extra": extra})
@@ -176,6 +183,31 @@ def gen_cmd_history(rng):
             ops.append({"op": "setenv", "k": rng.choice(VARS), "v": rng.choice(VALUES)})
     ops.append({"op": "call", "c": 0, "extra": dict(NILS)})
     return {"kind": "hist", "env": gen_env(rng), "arrays": arrays, "closures": [], "ops": ops}
+
+
+def gen_big_history(rng, nmax):
+    """argument-list TOTAL SIZE as a dimension: thousands of short arguments (tens of KB, far below ARG_MAX) through a
+    closure (call-time and baked-in) and through the direct functions: one child per call, with all of them"""
+    n = rng.randint(2000, nmax)
+    prefix = rng.choice(["src/pkg/file-", "some/dir/name_", "obj/x86_64/o-", "f"]) if n < 4000 else rng.choice(["f", "pkg/f-", "src/pkg/file-"])
+    if (len(prefix) + 4) * n < 33000:
+        prefix = "src/generated/pkg/file-"
+    arrays = [[prefix + str(i) for i in range(n)], [rng.choice(PLAIN + ["$V", "${V}x"]) for _ in range(3)]]
+    big = {"nil": False, "id": 0, "off": 0, "len": n, "cap": n}
+    small = {"nil": False, "id": 1, "off": 0, "len": rng.choice([0, 1, 2]), "cap": 3}
+    k1, k2 = rng.choice(["out", "run"]), rng.choice(["out", "run"])
+    ops = [{"op": "mk", "kind": k1, "cmd": rng.choice(CMDS_ABS), "baked": small},
+           {"op": "call", "c": 0, "extra": big}]
+    if rng.random() < 0.6:
+        ops.append({"op": "setenv", "k": "V", "v": rng.choice(VALUES)})
+    ops.append({"op": "direct", "fn": rng.choice(["Output", "Run", "OutputWith", "Exec"]), "emap": None, "cmd": rng.choice(CMDS_ABS), "args": big})
+    if rng.random() < 0.7:
+        ops += [{"op": "mk", "kind": k2, "cmd": rng.choice(CMDS_ABS), "baked": big}, {"op": "call", "c": 1, "extra": small}]
+    if nmax > 3000:
+        ops.append({"op": "call", "c": 0, "extra": dict(big, len=rng.randint(1500, n))})
+    env = gen_env(rng)
+    env.pop(VERBOSE, None)
+    return {"kind": "hist", "env": env, "arrays": arrays, "closures": [], "ops": ops, "big": True}
 
 
 def gen_history(rng):
@@ -348,9 +380,10 @@ def fs_apply(fs, f, act):
         st["exec"] = True
 
 
-def lookpath(name, path, fs, known):
-    """independent exec.LookPath over the abstract file system: a word with a slash names that file, a bare
-    word the first PATH directory holding an executable file of that name"""
+def lookpath(name, path, fs, known, cwd="/"):
+    """independent exec.LookPath over the abstract file system: a word with a slash names that file (relative to the
+    current directory, . and .. resolved: all directories involved exist, there are no symbolic links), a bare word the first
+    PATH directory holding an executable file of that name"""
     def ok(p):
         if p in fs:
             return fs[p]["present"] and fs[p]["exec"]
@@ -358,7 +391,8 @@ def lookpath(name, path, fs, known):
     if name == "":
         return None
     if "/" in name:
-        return name if ok(name) else None
+        p = os.path.normpath(os.path.join(cwd, name))
+        return p if ok(p) else None
     for d in (path.split(":") if path else []):
         p = (d or ".") + "/" + name
         if ok(p):
@@ -455,7 +489,7 @@ def run_chunks(ctx, binp, child, cases, tag, jobs=None):
             c = prepare(cases[i], child, dirs)
             open(outfile, "w").close()
             inp = json.dumps(request(c, outfile, gate)) + "\n"
-            rc, out, err = sh([binp], input=inp.encode(), timeout=600, env=goenv())
+            rc, out, err = sh([binp], input=inp.encode(), timeout=600, env=goenv(), cwd=dirs[1])
             if rc != 0 and "DATA RACE" not in err:
                 raise BuildError("unitrun (shslice) failed rc=%d: %s" % (rc, err[-2000:]))
             lines = [l for l in out.splitlines() if l.strip()]
@@ -503,7 +537,7 @@ def child_behaviour(argv, exe):
 
 def which(case, env, fs, argv):
     """the program the command word names NOW: environment and file system of this moment"""
-    return lookpath(argv[0], env.get("PATH", ""), fs, case["_known"])
+    return lookpath(argv[0], env.get("PATH", ""), fs, case["_known"], cwd=case["_dirs"][1])
 
 
 def trim_nl(t):
@@ -592,6 +626,11 @@ def short(x, n=700):
     return r if len(r) <= n else r[:n] + "..."
 
 
+def brief(x, n=600):
+    r = repr(x)
+    return r if len(r) <= n else r[:n // 2] + " ... " + r[-n // 2:]
+
+
 def oracle(case, ans):
     """the property sentence over what the implementation did. returns a list of failed clauses"""
     bad = []
@@ -612,14 +651,14 @@ def oracle(case, ans):
             if o["op"] == "call":
                 argv, out, stdout, code, exe = expected_closure(case, env, o["c"], o["extra"], fs)
                 cl = all_closures(case)[o["c"]]
-                what = "closure %d (%s, made by operation %d) called with %r" % (
+                what = "closure %d (%s, made by operation %d) called with %s" % (
                     o["c"], "OutCmd" if cl["kind"] == "out" else "RunCmd",
                     ([j for j, x in enumerate(case["ops"]) if x["op"] == "mk"] + [-1])[o["c"] - len(case.get("closures") or [])] if o["c"] >= len(case.get("closures") or []) else -1,
-                    contents(arrays, o["extra"]))
+                    brief(contents(arrays, o["extra"]), 300))
                 ref = "sh.Output" if cl["kind"] == "out" else "sh.Run"
             else:
                 argv, out, stdout, code, exe = expected_call(case, env, o, fs)
-                what = "sh.%s(%r, %r...)" % (o["fn"], o["cmd"], contents(arrays, o["args"]))
+                what = "sh.%s(%r, %s...)" % (o["fn"], o["cmd"], brief(contents(arrays, o["args"]), 300))
                 ref = "this call alone"
                 before = [[hx(k), hx(v)] for k, v in emap_entries(o)]
                 was_nil = o.get("emap") is None and not o.get("emap_odd")
@@ -627,13 +666,14 @@ def oracle(case, ans):
                     bad.append("op %d: %s changed the env map: %s -> %s" % (i, what, short(emap_entries(o), 300),
                                                                            short([(bytes.fromhex(k), bytes.fromhex(v)) for k, v in ob.get("emap_hex") or []], 300)))
             if ob["argv"] != ([argv] if exe else []):
-                bad.append("op %d: %s started %r, expected %s (command word %r: environment - PATH=%r - and file system at the time of the call)" % (
-                    i, what, ob["argv"], ("exactly one child, program %s, with argv %r" % (exe, argv)) if exe else "no child: nothing startable is named", argv[0], env.get("PATH")))
+                bad.append("op %d: %s started %d child(ren) %s, expected %s (command word %r: environment - PATH=%r - and file system at the time of the call)" % (
+                    i, what, len(ob["argv"]), brief(ob["argv"]), ("exactly one child, program %s, with the %d-element argv %s" % (exe, len(argv), brief(argv))) if exe else "no child: nothing startable is named",
+                    argv[0], env.get("PATH")))
             if ob["status"] != code or bool(ob["err"]) != (code != 0):
                 bad.append("op %d: %s returned error %r (exit status %d), the child exits with %d" % (i, what, ob["err"], ob["status"], code))
             if ob["out"] != out:
                 bad.append("op %d: %s handed back %r, expected %r (%s with the same argv in the environment of this call; what earlier calls printed is not part of it)" % (
-                    i, what, ob["out"], out, ref))
+                    i, what, brief(ob["out"], 300), brief(out, 300), ref))
             if ob["stdout"] != stdout:
                 bad.append("op %d: %s wrote %r to os.Stdout, expected %r (%s with the same argv; MAGEFILE_VERBOSE=%r at the time of this call)" % (
                     i, what, ob["stdout"], stdout, ref, env.get(VERBOSE)))
@@ -662,7 +702,7 @@ def oracle(case, ans):
                         bad.append("op %d rep %d: concurrent call %d (sh.%s) changed its env map: %s -> %r" % (i, ri, g, x["fn"], short(emap_entries(x), 200), rp.get("emaps_hex")[g]))
             env = par_envs(env, o)[-1]
         if ob["snap"] != arrays:
-            bad.append("op %d (%s): caller-visible arrays changed: %s -> %s" % (i, o["op"], short(arrays), short(ob["snap"])))
+            bad.append("op %d (%s): caller-visible arrays changed: %s -> %s" % (i, o["op"], brief(short(arrays, 10**7)), brief(short(ob["snap"], 10**7))))
             break
     return bad
 
@@ -680,7 +720,30 @@ def t_cell(x):
         coq_str(x[:m.start()]), coq_str(SLOW_REF), len(m.group(0)) // len(SLOW_REF), t_cell(x[m.end():]))
 
 
+def digest_str(h, s):
+    for c in s.encode("utf-8", "surrogateescape"):
+        h = (h * 31 + c) % 4294967296
+    return h
+
+
+def digest_list(h, l):
+    for x in l:
+        h = (digest_str(h, x) * 31 + 1) % 4294967296
+    return h
+
+
+def big_rule(l):
+    """(prefix, n) if the cells are prefix0, prefix1, ... (the generator's very long arrays)"""
+    if len(l) < BIG or not l[0].endswith("0"):
+        return None
+    prefix = l[0][:-1]
+    return (prefix, len(l)) if all(x == prefix + str(i) for i, x in enumerate(l)) else None
+
+
 def t_strs(l):
+    r = big_rule(l)
+    if r:
+        return "(big_cells %s %d)" % (coq_str(r[0]), r[1])
     return coq_list([t_cell(x) for x in l])
 
 
@@ -741,7 +804,16 @@ def t_lookup(case, ans):
 def hist_term(case, ans):
     obs = []
     for o, ob in zip(case["ops"], ans["obs"]):
-        obs.append("{| i_argv := %s; i_out := %s; i_stdout := %s; i_status := %d; i_snap := %s; i_emap := %s |}" % (
+        if sum(len(a) for a in ob["argv"]) >= BIG:
+            # a very long call: the case file carries the number of children and digests instead of the lists
+            dig = "(Some (%d, %d%%N, %s))" % (len(ob["argv"]), digest_list(0, [x for a in ob["argv"] for x in a]),
+                                             "None" if ob["out"] is None else "(Some %d%%N)" % digest_str(0, ob["out"]))
+            obs.append("{| i_argv := []; i_out := None; i_stdout := %s; i_status := %d; i_digest := %s; i_snap := %s; i_emap := %s |}" % (
+                coq_str(ob.get("stdout") or ""), ob.get("status") or 0, dig,
+                "h0_" if ob["snap"] == case["arrays"] else t_heap(ob["snap"]),
+                t_bytes_env([(bytes.fromhex(k), bytes.fromhex(v)) for k, v in ob.get("emap_hex") or []])))
+            continue
+        obs.append("{| i_argv := %s; i_out := %s; i_stdout := %s; i_status := %d; i_digest := None; i_snap := %s; i_emap := %s |}" % (
             coq_list([t_strs(a) for a in ob["argv"]]), t_optstr(ob["out"]), coq_str(ob.get("stdout") or ""), ob.get("status") or 0,
             "h0_" if ob["snap"] == case["arrays"] else t_heap(ob["snap"]),
             t_bytes_env([(bytes.fromhex(k), bytes.fromhex(v)) for k, v in ob.get("emap_hex") or []])))
@@ -868,7 +940,9 @@ def run(ctx):
         npar = 28 if ctx.quick else 300
         reps = 4 if ctx.quick else 10
         nalloc = 6 if ctx.quick else 60
-        cases = [gen_history(rng) for _ in range(nh)] + [gen_par(rng, reps) for _ in range(npar)] + [gen_par(rng, reps, alloc=True) for _ in range(nalloc)]
+        nbig, bigmax = (3, 2300) if ctx.quick else (24, 6000)     # the model's list memory makes a copy of n cells cost n^2
+        cases = ([gen_history(rng) for _ in range(nh)] + [gen_big_history(rng, bigmax) for _ in range(nbig)] +
+                 [gen_par(rng, reps) for _ in range(npar)] + [gen_par(rng, reps, alloc=True) for _ in range(nalloc)])
     ctx.log("built; running %d cases" % len(cases))
     cases, answers, _ = run_chunks(ctx, binp, child, cases, "n")
     ctx.log("implementation ran")
@@ -885,7 +959,10 @@ def run(ctx):
     hist = [(c, a) for c, a in zip(cases, answers) if c["kind"] == "hist" and not a.get("error")]
     pars = [(c, a) for c, a in zip(cases, answers) if c["kind"] == "par" and not a.get("error")]
     header = "From Mage Require Import Base.Strs Base.Expand Model.Slices Run.eval_C16.\n"
+    bighist = [(c, a) for c, a in hist if c.get("big")]
+    hist = [(c, a) for c, a in hist if not c.get("big")]
     items = [hist_term(c, a) for c, a in hist]
+    bigitems = [hist_term(c, a) for c, a in bighist]
     pitems, powner = [], []
     for c, a in pars:
         ts, hs = par_terms(c, a)
@@ -893,9 +970,14 @@ def run(ctx):
         powner += [(c, a)] * len(ts)
         items += hs
         hist += [(c, a)] * len(hs)
-    mism = ctx.coq_eval_shards("cases_C16", header, items, per_shard=max(20, (len(items) + NCPU - 1) // NCPU)) if items else []
-    pmism = ctx.coq_eval_shards("cases_C16par", header + "Definition mismatches := mismatches_conc.\n", pitems,
-                                per_shard=max(20, (len(pitems) + NCPU - 1) // NCPU)) if pitems else []
+    # the three groups of case files are evaluated at the same time (the very long cases take longest)
+    jobs3 = [lambda: ctx.coq_eval_shards("cases_C16big", header, bigitems, per_shard=1) if bigitems else [],
+             lambda: ctx.coq_eval_shards("cases_C16", header, items, per_shard=max(20, (len(items) + NCPU - 1) // NCPU)) if items else [],
+             lambda: ctx.coq_eval_shards("cases_C16par", header + "Definition mismatches := mismatches_conc.\n", pitems,
+                                         per_shard=max(20, (len(pitems) + NCPU - 1) // NCPU)) if pitems else []]
+    bmism, mism, pmism = pmap(lambda f: f(), jobs3, jobs=3)
+    mism = list(mism) + [(len(hist) + i, body) for i, body in bmism]
+    hist = hist + bighist
     ctx.log("model evaluated")
     if (mism or pmism) and not ctx.violations:
         for idx, body in mism[:3]:
@@ -1033,7 +1115,9 @@ def run(ctx):
             seen.add(h)
             if c["kind"] == "par" or (ncalls >= 2 and any("$" in x for arr_ in c["arrays"] for x in arr_)):
                 nontriv += 1
-    cov["evaluations"] = len(items) + len(pitems)
+    cov["evaluations"] = len(items) + len(bigitems) + len(pitems)
+    cov["very_long_calls"] = {"histories": len(bigitems), "arguments": sorted(len(c["arrays"][0]) for c, _ in bighist if c.get("big")),
+                              "bytes": sorted(sum(len(x) + 1 for x in c["arrays"][0]) for c, _ in bighist if c.get("big"))}
     cov["distinct_nontrivial"] = nontriv
     cov["rule"] = ("histories: 1-5 arrays of 0-6 cells ($V, ${V}, mixed and literal words in every cell, spare cells included), 1-3 closures "
                    "(RunCmd/OutCmd; the command word literal, $VAR for the directory / the program name / the whole path, or a bare name resolved through PATH - with "
